@@ -276,8 +276,23 @@ fn gen_c01(g: &mut G) {
             g.new_obj("e", f, kind, "ks", 0, iv.clone(), json!({"rand":0}), "inner");
             g.new_obj("d", f, kind, "ks", 0, iv, json!({"out":"e"}), "inner");
             let n = g.nbytes(bs, 5);
-            g.sched_bytes("e", n, bs, None, false);
-            g.sched_bytes("d", n, bs, None, false);
+            if g.rng.coin() {
+                // contrasting ways of driving the two directions: one call on one side, small pieces on the other
+                // (a keystream that depends on batching cancels out when both sides are cut alike)
+                let (big, small) = if g.rng.coin() { ("e", "d") } else { ("d", "e") };
+                let pieces = g.composition(n, bs + 1, true);
+                let bb = g.rng.coin();
+                if big == "e" {
+                    g.bytes("e", n, bb);
+                    for k in pieces { g.bytes(small, k, false); }
+                } else {
+                    for k in pieces { g.bytes(small, k, false); }
+                    g.bytes("d", n, bb);
+                }
+            } else {
+                g.sched_bytes("e", n, bs, None, false);
+                g.sched_bytes("d", n, bs, None, false);
+            }
         }
         7 => {
             let kind = *g.rng.pick(&CTS_KINDS);
@@ -1407,8 +1422,31 @@ fn gen_c17(g: &mut G) {
     for (j, key) in [0u64, 1].iter().enumerate() {
         let o = format!("o{j}");
         let dir = if ks { "ks" } else if g.rng.coin() { "enc" } else { "dec" };
-        let iv = g.iv_for(&kind, j as u64);
-        g.new_obj(&o, f, &kind, dir, *key, iv, json!({"rand": j}), "inner");
+        // special DATA and IVs too: all-zero input (then one half of a feedback state may be zero while the other
+        // is not), IVs that are zero in one half, no data at all
+        let ivlen = if kind == "ige" { 2 * bs } else { bs };
+        let iv = match g.rng.below(6) {
+            0 => json!({"bytes": vec![0u8; ivlen]}),
+            1 => {
+                let mut v = g.rng.bytes(ivlen);
+                for b in v[ivlen / 2..].iter_mut() { *b = 0; }
+                json!({"bytes": v})
+            }
+            2 => {
+                let mut v = g.rng.bytes(ivlen);
+                for b in v[..ivlen / 2].iter_mut() { *b = 0; }
+                json!({"bytes": v})
+            }
+            _ => g.iv_for(&kind, j as u64),
+        };
+        let src = if g.rng.chance(1, 3) { json!({"zero": 1}) } else { json!({"rand": j}) };
+        g.new_obj(&o, f, &kind, dir, *key, iv, src, "inner");
+        if g.rng.chance(1, 8) {
+            // never used
+            g.op("debug", &o);
+            g.op("drop", &o);
+            continue;
+        }
         g.op("debug", &o);
         // special states: the very end of the keystream (remaining = Some(0)), the last blocks, far positions
         if let Some(bits) = ctr_bits(&kind) {
